@@ -16,7 +16,7 @@ theorem evalStar_some_star (env : Env) (rules : List Rule) (m : Nat) (r : Rule) 
           finish env r nest r.objectMapType r.objectMapValue [] F2) := by
   unfold evalStar
   rw [hrefs]
-  simp [hnc, hstar, frameOf, pure, Except.pure, bind, Except.bind]
+  simp [hnc, hstar, frameOf, frameOfStar, pure, Except.pure, bind, Except.bind]
 
 theorem evalStar_some_plain (env : Env) (rules : List Rule) (m : Nat) (r : Rule) (F : Frame) (pjr : List Str) (nest : Nat)
     (refs0 : List Str) (hrefs : refsStar rules (m + 1) r = .ok refs0) (hnc : isAllConstant r = false) (hstar : isStar r = false)
@@ -28,7 +28,7 @@ theorem evalStar_some_plain (env : Env) (rules : List Rule) (m : Nat) (r : Rule)
 
 theorem evalStar_none (env : Env) (rules : List Rule) (m : Nat) (r : Rule) (pjr : List Str) (nest : Nat)
     (refs0 : List Str) (hrefs : refsStar rules (m + 1) r = .ok refs0) (hnc : isAllConstant r = false)
-    (hp : r.objectMapType ≠ .parentTM) :
+    (hp : r.objectMapType ≠ .parentTM) (hne : (refs0 ++ pjr).isEmpty = false) :
     evalStar env rules (m + 1) r none pjr nest =
       (getData env r (refs0 ++ pjr) >>= fun F0 => evalStar env rules (m + 1) r (some F0) [] nest) := by
   cases hg : getData env r (refs0 ++ pjr) with
@@ -36,18 +36,18 @@ theorem evalStar_none (env : Env) (rules : List Rule) (m : Nat) (r : Rule) (pjr 
     unfold evalStar
     rw [hrefs]
     by_cases hstar : isStar r = true <;>
-      simp [hnc, hstar, hp, frameOf, hg, bind, Except.bind]
+      simp [hnc, hstar, hp, frameOf, frameOfStar, hne, hg, bind, Except.bind]
   | ok F0 =>
     rw [bind_ok]
     by_cases hstar : isStar r = true
     · rw [evalStar_some_star env rules m r F0 [] nest refs0 hrefs hnc hstar]
       unfold evalStar
       rw [hrefs]
-      simp [hnc, hstar, frameOf, hg, bind, Except.bind]
+      simp [hnc, hstar, frameOf, frameOfStar, hne, hg, bind, Except.bind]
     · have hstar' : isStar r = false := by simpa using hstar
       rw [evalStar_some_plain env rules m r F0 [] nest refs0 hrefs hnc hstar' hp]
       unfold evalStar
       rw [hrefs]
-      simp [hnc, hstar', hp, frameOf, hg, bind, Except.bind]
+      simp [hnc, hstar', hp, frameOf, frameOfStar, hne, hg, bind, Except.bind]
 
 end Model.Star
